@@ -30,6 +30,7 @@ import (
 	"k8s.io/apimachinery/pkg/api/resource"
 	metav1 "k8s.io/apimachinery/pkg/apis/meta/v1"
 	"k8s.io/apimachinery/pkg/runtime/schema"
+	"k8s.io/apimachinery/pkg/types"
 	"k8s.io/klog/v2"
 	fakeclock "k8s.io/utils/clock/testing"
 	ctrlclient "sigs.k8s.io/controller-runtime/pkg/client"
@@ -192,7 +193,8 @@ func (env *c09Env) c09Exec(in c09In) (out vu.Ev, failure string) {
 	}
 	if in.Anno.CPU > 0 || in.Anno.Mem > 0 {
 		node.Annotations[extension.AnnotationNodeReservation] =
-			fmt.Sprintf(`{"resources":{"cpu":"%dm","memory":"%d"}}`, in.Anno.CPU, in.Anno.Mem)
+			fmt.Sprintf(`{"resources":{"cpu":"%dm","memory":"%d"}%s}`, in.Anno.CPU, in.Anno.Mem,
+				[]string{"", `,"applyPolicy":"Default"`, `,"applyPolicy":"ReservedCPUsOnly"`}[(in.Anno.CPU+in.Anno.Mem)%3]) // how it applies to scheduling; reserved either way
 	}
 	strategy := &configuration.ColocationStrategy{
 		Enable:                        c09BoolPtr(true),
@@ -222,7 +224,7 @@ func (env *c09Env) c09Exec(in c09In) (out vu.Ev, failure string) {
 	for k, p := range in.Pods {
 		pod := corev1.Pod{
 			ObjectMeta: metav1.ObjectMeta{
-				Name: fmt.Sprintf("p%d", k), Namespace: "ns",
+				Name: fmt.Sprintf("p%d", k), Namespace: "ns", UID: types.UID(fmt.Sprintf("uid-p%d", k)), // the same pod object over the rounds (resized in place)
 				Labels:      map[string]string{extension.LabelPodQoS: p.Qos},
 				Annotations: map[string]string{},
 			},
